@@ -1412,7 +1412,10 @@ def replay(ctx, rep):
         except Exception as e:
             print('stats_model', rep['stats_model'], 'tool raises on valid input:', type(e).__name__, e)
             return 1
-        v = ctx.run_cases('replay', 'C19.Model C19.Stats', 'stcase', [term], 'stverdict')[0]
+        if k in ('pct', 'sim'):
+            v = ctx.run_cases('replay', 'C19.Model C19.Stats C19.Stats2', 'st2case', [term], 'stverdict2')[0]
+        else:
+            v = ctx.run_cases('replay', 'C19.Model C19.Stats', 'stcase', [term], 'stverdict')[0]
         print('stats_model', rep['stats_model'], 'tags', v)
         return 1 if v else 0
     if 'stats' in rep:
